@@ -587,6 +587,16 @@ macro_rules! declare_storage_n {
                         debug_assert!(slot_index_usize <= self.capacity());
                         debug_assert!(dense_index_usize < self.len);
 
+                        // Advance both versions up front. If either overflows, we want to panic
+                        // here, before we've modified anything, to keep the storage consistent.
+                        let next_version = self.version.next();
+                        let next_slot_version = self
+                            .slots
+                            .slice(self.capacity())
+                            .get_unchecked(slot_index_usize) // SAFETY: See declaration.
+                            .version()
+                            .next();
+
                         let entities = self.entities.slice(self.len);
                         debug_assert!(entities.len() == self.len);
 
@@ -626,10 +636,10 @@ macro_rules! declare_storage_n {
                         // Return the target slot to the free list
                         slots
                             .get_unchecked_mut(slot_index_usize) // SAFETY: See declaration.
-                            .release(self.free_head);
+                            .release(self.free_head, next_slot_version);
 
                         // Advance this storage's overall version (for add/removes).
-                        self.version = self.version.next();
+                        self.version = next_version;
 
                         result
                     };
